@@ -139,6 +139,21 @@ func FromIPLD[T Tokener](node datamodel.Node) (T, error) {
 		return zero, err
 	}
 
+	// bindnode converts an unsigned integer above MaxInt64 to a negative int64: refuse such a
+	// field, as the decoded token wouldn't be what was signed.
+	for it := info.tokenPayloadNode.MapIterator(); it != nil && !it.Done(); {
+		k, v, err := it.Next()
+		if err != nil {
+			return zero, err
+		}
+		if v.Kind() == datamodel.Kind_Int {
+			if _, err := v.AsInt(); err != nil {
+				key, _ := k.AsString()
+				return zero, fmt.Errorf("field %q: %w", key, err)
+			}
+		}
+	}
+
 	// Replaces the datamodel.Node in tokenPayloadNode with a
 	// schema.TypedNode so that we can cast it to a *token.Token after
 	// unwrapping it.
